@@ -290,3 +290,105 @@ Print Assumptions no_missing_iff_undischarged.
 Print Assumptions withdis_spec.
 Print Assumptions withdis_monotone.
 Print Assumptions discharges_perm_spec.
+
+(* ---- object sharing between a bundle and the bundles derived from it (Model/BundleHeap.v).
+   Statements restated from Proofs/BundleHeapProofs.v (closed by [exact]). *)
+From Mac Require Import Model.BundleHeap Proofs.BundleHeapProofs.
+
+(* on scenarios whose accepted Attenuate calls write only objects that no other slot reaches, the heap model
+   and the value model (all the theorems above) observe the same *)
+Theorem heap_refines_value_model :
+    forall (T : tables) (ops : list bop), alias_safe T ops = true -> hrun T ops = run_bundle T ops.
+Proof. exact (@hrun_refines_l). Qed.
+
+Theorem heap_refines_value_model_without_select :
+    forall (T : tables) (ops : list bop), no_select ops = true -> hrun T ops = run_bundle T ops.
+Proof. exact (@no_select_refines_l). Qed.
+
+(* ownership (a wrapper's base object is private to it) and exactness (a wrapper's caveat set is the verified set of its
+   token's ancestor extended by exactly the attenuations since), for every cache-free scenario *)
+Theorem heap_exactness :
+    forall (T : tables) (ops : list bop), cache_free ops = true -> hinv T (hstate_after T hinit ops).
+Proof. exact (@hexact_run_l). Qed.
+
+Theorem validate_own_refs :
+    forall (ct : ctable) (h : heap) (hb : hbundle) (rq : N),
+    validate ct (hview h hb) rq = true <->
+    (exists (r : N) (m : mac) (cs : N), In r (hb_refs hb) /\ cell_tok h r = TVer m cs /\ clookup ct cs rq = true).
+Proof. exact (@validate_own_refs_l). Qed.
+
+Theorem bundle_decision_exact :
+    forall (T : tables) (ops : list bop) (k : N) (hb : hbundle) (rq : N),
+    raw_ops ops = true ->
+    cache_free ops = true ->
+    let σ := hstate_after T hinit ops in
+    In (k, hb) (h_bs σ) ->
+    validate (t_c T) (hview (h_heap σ) hb) rq = true <->
+    (exists (r u cs : N) (m : mac),
+    In r (hb_refs hb) /\
+    blookup r (h_heap σ) = Some (CVer u cs) /\
+    cell_mac (h_heap σ) u = Some m /\
+    is_perm (hb_loc hb) (TVer m cs) = true /\ vexact T (m_id m) cs /\ clookup (t_c T) cs rq = true).
+Proof. exact (@bundle_decision_exact_l). Qed.
+
+Theorem attenuate_visible_through_aliases :
+    forall (at_ : atable) (cst : cstable) (h : heap) (hb : hbundle) (cl : N) (h' : heap) (hb' : hbundle) (r : N),
+    hattenuate at_ cst h hb cl = (h', true) ->
+    In r (hb_refs hb) ->
+    In r (hb_refs hb') ->
+    exists t1 : tok,
+    att_tok at_ cst (hb_loc hb) cl (cell_tok h r) = Some t1 /\
+    cell_tok h' r = t1 /\ In t1 (b_ts (hview h' hb)) /\ In t1 (b_ts (hview h' hb')).
+Proof. exact (@attenuate_visible_through_aliases_l). Qed.
+
+(* no attenuation bypasses a verified caveat set (finding F15, repaired): token identity and caveat set move together *)
+Theorem attenuate_never_bypasses :
+    forall (at_ : atable) (cst : cstable) (σ : hst) (k : N) (hb : hbundle) (cl : N) (h' : heap) (w u cs : N) (m : mac),
+    own σ ->
+    In (k, hb) (h_bs σ) ->
+    hattenuate at_ cst (h_heap σ) hb cl = (h', true) ->
+    blookup w (h_heap σ) = Some (CVer u cs) ->
+    cell_mac (h_heap σ) u = Some m ->
+    cell_tok (h_heap σ) w = TVer m cs /\
+    (cell_tok h' w = TVer m cs \/
+    (exists i : N,
+    alookup at_ (m_id m) cl = VRes (Some i) /\ cell_tok h' w = TVer (retag m i) (cslookup cst cs cl))).
+Proof. exact (@attenuate_never_bypasses_l). Qed.
+
+Theorem select_keeps_cells :
+    forall (T : tables) (σ : hst) (dst b : N) (p : pred) (hb : hbundle),
+    blookup b (h_bs σ) = Some hb ->
+    let σ' := fst (hstep T σ (BSelect dst b p)) in
+    h_heap σ' = h_heap σ /\
+    (exists hd : hbundle,
+    blookup dst (h_bs σ') = Some hd /\
+    (forall r : N,
+    In r (hb_refs hd) <-> In r (hb_refs hb) /\ pred_fn (hb_loc hb) p (cell_tok (h_heap σ) r) = true) /\
+    hview (h_heap σ') hd = BundleM.select (hview (h_heap σ) hb) (pred_fn (hb_loc hb) p)).
+Proof. exact (@select_keeps_cells_l). Qed.
+
+Theorem clone_independent :
+    forall (T : tables) (σ : hst) (dst b : N) (hb : hbundle),
+    hwf σ ->
+    blookup b (h_bs σ) = Some hb ->
+    let σ1 := fst (hstep T σ (BClone dst b)) in
+    exists hd : hbundle,
+    blookup dst (h_bs σ1) = Some hd /\
+    hview (h_heap σ1) hd = clone (hview (h_heap σ) hb) /\
+    isolated σ1 dst = true /\
+    (forall (k' : N) (hb' : hbundle) (cl : N),
+    In (k', hb') (h_bs σ1) ->
+    k' <> dst ->
+    hview (hatt_heap (t_a T) (t_cs T) (h_heap σ1) hb' cl) hd = hview (h_heap σ1) hd /\
+    hview (hatt_heap (t_a T) (t_cs T) (h_heap σ1) hd cl) hb' = hview (h_heap σ1) hb').
+Proof. exact (@clone_independent_l). Qed.
+
+Print Assumptions heap_refines_value_model.
+Print Assumptions heap_refines_value_model_without_select.
+Print Assumptions heap_exactness.
+Print Assumptions validate_own_refs.
+Print Assumptions bundle_decision_exact.
+Print Assumptions attenuate_visible_through_aliases.
+Print Assumptions attenuate_never_bypasses.
+Print Assumptions select_keeps_cells.
+Print Assumptions clone_independent.
